@@ -404,7 +404,28 @@ def node_label_truthiness(rep, prog, qnames, rule="TRUTHY.node-label", sets_as_p
                "%d any()/all() calls inspected; none takes the truth value of a node label" % n)
 
 
+def truth_of_generator(rep, prog, qnames, rule="API.all-of-generator"):
+    """np.all(<generator expression>) / np.any(<generator expression>): numpy wraps the generator *object* in a 0-d object array,
+    whose truth value is True - the condition is never evaluated (builtin all / any iterate; np.all / np.any need a list)."""
+    n = 0
+    hit = None
+    for q in qnames:
+        f = prog.funcs.get(q)
+        if f is None:
+            continue
+        for node in ast.walk(f.node):
+            if isinstance(node, ast.Call) and (dotted_of(node.func) or "") in ("np.all", "np.any", "numpy.all", "numpy.any", "np.alltrue", "np.sometrue") and node.args:
+                n += 1
+                if isinstance(node.args[0], ast.GeneratorExp):
+                    hit = (f, node)
+                    rep.bad(rule, fwhere(f, node), "`%s` is the truth value of a generator object (always True), not of its elements" % norm(node)[:80])
+    if hit is None:
+        rep.ok(rule, {"file": "sempler/utils.py", "line": 0, "function": "(%d functions)" % len(qnames), "construct": "np.all()/np.any()"},
+               "%d np.all / np.any calls inspected; none is applied to a generator expression" % n)
+
+
 def isin_over_sets(rep, prog, qnames, rule="API.isin-set"):
+    truth_of_generator(rep, prog, qnames)
     """np.isin(x, s) / np.in1d(x, s) with a Python *set* s: numpy wraps the set in a 0-d object array and every membership test is
     False (the documented trap: "pass list(s)").  Reported when the second argument is a set literal, set(...), a set
     comprehension, a set operation or one of the library's set-valued node functions."""
